@@ -20,13 +20,13 @@ import numpy as np
 from hypothesis import strategies as st
 
 from vlib.runner import Sub, Violation, Inconclusive, ok, read_known
-from vlib.util import fl, scratch_dir
+from vlib.util import fl, scratch_dir, numpy_seed
 from vlib import wbsys, symlib, runhelp
 
 PROPERTY_ID = "C07"
 RULE = ("structure library of vlib/symlib.py (22 structures in the families cubic / hexagonal / low symmetry, consistent "
         "projection sets, scalar / spin-orbit / ferro-, antiferro-, non-collinear magnetic variants, free lattice and internal "
-        "parameters) x random start model (Ham, AA, BB, CC; SS, SA, SHA, SH, SR, SHR with spin) symmetrised by the code x grid "
+        "parameters) x random start model (Ham, AA, BB, CC, FF; SS, SA, SHA, SH, SR, SHR with spin) symmetrised by the code x grid "
         "NKdiv x NKFFT compatible with the lattice family (<= 125 k-points) x <= 7 static (all classes of calculators.static "
         "found by reflection x {all, internal, external terms}, tetra=False) + <= 2 dynamic / SDCT + <= 4 tabulators + Energy, "
         "Fermi grid of 1-5 levels; non-trivial = group order >= 4, fewer irreducible than full K-points, at least one "
@@ -47,7 +47,7 @@ ASSUMPTIONS = ["precondition 'genuinely symmetric' is decided by the harness (E,
                "unsupported option) are skipped and counted"]
 MIN_NONTRIVIAL = {"quick": 4, "thorough": 100}
 
-BASE_KEYS = ["Ham", "AA", "BB", "CC"]
+BASE_KEYS = ["Ham", "AA", "BB", "CC", "FF"]
 SPIN_KEYS = ["SS", "SA", "SHA", "SH", "SR", "SHR"]
 EQUAL_AXES = {"sc": [(0, 1), (1, 2)], "fcc": [(0, 1), (1, 2)], "bcc": [(0, 1), (1, 2)], "rhombohedral": [(0, 1), (1, 2)],
               "tetragonal": [(0, 1)], "hexagonal": [(0, 1)], "hexagonal60": [(0, 1)]}
@@ -159,6 +159,20 @@ def build_calculators(chosen):
     return calcs
 
 
+def gauge_spread(system, grid, K_list, make, seed):
+    """sum_K w_K max|X_K(plain gauge) - X_K(random unitary rotation inside every degenerate multiplet)|: the documented
+    testing option random_gauge of Data_K; non-zero only when a calculator is not gauge covariant at degenerate k-points"""
+    from wannierberri.data_K import get_data_k_class_from_system
+    cls = get_data_k_class_from_system(system)
+    tot = 0.0
+    with numpy_seed(seed):
+        for K in K_list:
+            r0 = make()(cls(system, dK=K.Kp_fullBZ, grid=grid, Kpoint=K)).data
+            r1 = make()(cls(system, dK=K.Kp_fullBZ, grid=grid, Kpoint=K, random_gauge=True)).data
+            tot += abs(float(K.factor)) * float(np.max(np.abs(np.asarray(r0) - np.asarray(r1))))
+    return tot
+
+
 def check(case):
     import wannierberri as wb
     s = case["struct"]
@@ -229,7 +243,12 @@ def check(case):
         unit = 1.0 if kind == "static" else abs(complex(getattr(calcs_irr[name], "constant_factor", 1.0)))
         tol = 1e-7 * Y + unit * max(1e-10, noise(4))
         if not np.all(np.isfinite(a)) or err > tol:
-            found.append((f"integrated:{name}",
+            # root-cause split: a calculator whose value at a degenerate k-point depends on the arbitrary eigenvector gauge
+            # inside the multiplet (checked with the code's own random_gauge testing option) cannot agree between k and g k
+            gs = gauge_spread(system, grid, cap.K_list, chosen[name][1], case["rs"]) if np.all(np.isfinite(a)) else 0.0
+            tag = "|gauge-dependent-at-degenerate-k" if gs > 0.05 * err else ""
+            found.append((f"integrated:{name}{tag}",
+                          (f"[value changes by {gs:.3e} under a unitary rotation inside degenerate multiplets] " if tag else "") +
                           f"{symlib.label(s)} group order {ngroup}, grid {case['NKdiv']}x{case['NKFFT']}: {name} irreducible+symmetrised "
                           f"vs full grid differ by {err:.3e} (yardstick {Y:.3e}, tolerance {tol:.1e}; max|full| {np.max(np.abs(b)) if b.size else 0:.3e}, "
                           f"max|irr| {np.max(np.abs(a)) if a.size else 0:.3e})"))
